@@ -85,7 +85,8 @@ CStep(m0, o) ==
                   THEN << Flag("message whose push returned before Close was invoked was never delivered") >> ELSE << >>
             f3 == IF ~o.stuck /\ m.closeCalls > 0 /\ m.closeOk # 1
                   THEN << Flag("number of successful Close calls is not exactly one") >> ELSE << >>
-        IN  [m EXCEPT !.flags = f1 \o f2 \o f3]
+            f4 == IF o.panics > 0 THEN << Flag("a call into the Reassembler panicked under concurrent use") >> ELSE << >>
+        IN  [m EXCEPT !.flags = f1 \o f2 \o f3 \o f4]
     ELSE m
 
 RECURSIVE CRun(_, _, _, _)
@@ -94,6 +95,6 @@ CRun(m, os, i, acc) ==
     IF i > Len(os) THEN acc
     ELSE LET m1 == CStep(m, os[i]) IN CRun(m1, os, i + 1, acc \o m1.flags)
 
-EndRec(stuck) == [k |-> "end", stuck |-> stuck]
+EndRec(stuck) == [k |-> "end", stuck |-> stuck, panics |-> 0]
 FlagsOfRun(os) == CRun(CInit, Append(os, EndRec(FALSE)), 1, << >>)
 =============================================================================
